@@ -307,6 +307,57 @@ pub fn run(ctx: &Ctx) -> i32 {
             }
         });
         acc.merge(cacc.into_inner().unwrap());
+        // ---------- includes of things that are no regular files (on-disk include graphs): devices that never
+        // end, pipes nobody writes to, directories, dangling and circular symbolic links. Time and memory must
+        // stay bounded by the size of the *input* (a few dozen bytes here).
+        {
+            let sc = Scratch::new(&ctx.root, "c06s");
+            let fifo = sc.dir.join("pipe");
+            let _ = std::process::Command::new("mkfifo").arg(&fifo).status();
+            let _ = std::os::unix::fs::symlink("nowhere.s", sc.dir.join("dangling.s"));
+            let _ = std::os::unix::fs::symlink("loop_b.s", sc.dir.join("loop_a.s"));
+            let _ = std::os::unix::fs::symlink("loop_a.s", sc.dir.join("loop_b.s"));
+            let _ = std::fs::create_dir_all(sc.dir.join("dir.s"));
+            let long = "x".repeat(5000);
+            let specials: Vec<(&str, String)> = vec![
+                ("dev-zero", "/dev/zero".into()),
+                ("dev-urandom", "/dev/urandom".into()),
+                ("dev-null", "/dev/null".into()),
+                ("dev-full", "/dev/full".into()),
+                ("fifo-without-writer", "pipe".into()),
+                ("directory", "dir.s".into()),
+                ("current-directory", ".".into()),
+                ("dangling-symlink", "dangling.s".into()),
+                ("symlink-loop", "loop_a.s".into()),
+                // (kernel pseudo-files such as /proc/kmsg call themselves regular files and block on read:
+                // no reader can tell, they are not part of "on-disk files" and are not demanded)
+                ("overlong-name", long),
+                ("empty-name", String::new()),
+            ];
+            for (what, path) in &specials {
+                let text = format!("main:\n    li a7, 10\n    ecall\n.include \"{path}\"\n");
+                sc.write("main.s", &text);
+                for (b, exe) in [("dev", &ctx.rva_checked), ("release", &ctx.rva_release)] {
+                    let (run, rss) = cli::run_measured(exe, &["lint", "--compact", "--no-color", "--all-files", "main.s"], &sc.dir, 4 * 1024 * 1024, std::time::Duration::from_secs(10));
+                    acc.evaluations += 1;
+                    acc.count("special_file_includes", 1);
+                    acc.note("special_files", what.to_string());
+                    let replay = json!({"class": format!("include-of-{what}"), "build": b, "files": [["main.s", text]], "note": "run in a directory prepared like props/c06.rs does (mkfifo pipe, symlinks)"});
+                    if run.timed_out {
+                        acc.violation(format!("C06|hang|cli|include-of-{what}"), format!("`rva lint` ({b}) did not finish within 10 s on a {}-byte file that includes {what} (`{}`)", text.len(), path.chars().take(40).collect::<String>()), replay);
+                    } else if run.panicked() || run.signal.is_some() || run.code != Some(0) {
+                        acc.violation(format!("C06|panic|cli|include-of-{what}"), format!("`rva lint` ({b}) crashes on a file that includes {what}: code {:?} signal {:?} {}", run.code, run.signal, run.stderr.lines().take(2).collect::<Vec<_>>().join(" | ").chars().take(200).collect::<String>()), replay);
+                    } else if rss.is_some_and(|k| k > 512 * 1024) || run.stdout.contains("out of memory") {
+                        acc.violation(format!("C06|memory|cli|include-of-{what}"), format!("`rva lint` ({b}) used {:?} KiB (limit of the run: 4 GiB; `{}`) on a {}-byte file that includes {what}", rss, run.stdout.lines().next().unwrap_or("").chars().take(120).collect::<String>(), text.len()), replay);
+                    } else {
+                        acc.count("special_file_includes_ok", 1);
+                        if let Some(k) = rss {
+                            acc.count("special_file_includes_max_rss_kib_sum", k);
+                        }
+                    }
+                }
+            }
+        }
     }
     rep.acc.merge(acc);
     rep.require("linted_ok", 300);
